@@ -242,6 +242,9 @@ func overlapCsPlan(t *simrt.Tape, p *csPlan) {
 	}
 	if !t.Chance(1, 4) {
 		p.crypt = true
+		if p.keyLen != 16 && p.keyLen != 24 && p.keyLen != 32 {
+			p.keyLen = 32 // an AES key now
+		}
 		if p.size == 0 {
 			p.size = payloadSizes[t.Intn(len(payloadSizes))]
 		}
